@@ -591,6 +591,10 @@ def run_main(case):
     touched = _touched(alph, seq)
     U = _ref_u(alph, seq, qs)
     atol = _tol(dt, len(seq))
+    if init == ("v", "flat64"):
+        # a complex64 input vector is normalised only to ~1e-7 and the trial result renormalises its final vector
+        # (StateVectorTrialResult.final_state_vector), so the comparison is at the input's own precision
+        atol = max(atol, 3e-7)
 
     def ctx():
         return f"{describe(case)}\ncircuit:\n{circ}\nqubit order: {list(qs)}"
